@@ -482,6 +482,13 @@ def _is_pkg_yield(ctx, y, fi):
     v = getattr(y, 'value', None)
     if v is None or isinstance(y, ast.YieldFrom):
         return False
+    if isinstance(v, ast.Name) and fi is not None:
+        # a local bound (only ever) to `package.pkg`
+        vals = [a.value for a in ast.walk(fi.node) if isinstance(a, ast.Assign) and any(isinstance(t, ast.Name) and t.id == v.id for t in a.targets)]
+        stores = sum(1 for t in ast.walk(fi.node) if isinstance(t, ast.Name) and t.id == v.id and isinstance(t.ctx, ast.Store))
+        if vals and stores == len(vals) and v.id not in fi.params:
+            return all(isinstance(x, ast.Attribute) and x.attr == 'pkg' and isinstance(x.value, ast.Name) and x.value.id == 'package' for x in vals)
+        return False
     if isinstance(v, ast.Attribute) and v.attr == 'pkg' and isinstance(v.value, ast.Name) and v.value.id == 'package':
         return True
     if isinstance(v, ast.Call) and ctx.res.external_name(v) in ('datapackage.Package', 'datapackage.package.Package'):
@@ -624,7 +631,8 @@ def r1a_arity(ctx, rule='R1a'):
     chn = ctx.N(ch)
     tests = [t for t in ast.walk(chn.node) if isinstance(t, ast.Compare) and isinstance(t.left, ast.Call) and u(t.left.func) == 'len'
              and len(t.ops) == 1 and isinstance(t.comparators[0], ast.Constant)]
-    arity = [t for t in tests if 'param' in u(t.left).lower() or 'signature' in u(t.left).lower()]
+    from rules.stream import subst_once
+    arity = [t for t in tests if 'signature' in u(subst_once(chn.node, t.left)).lower() or 'param' in u(t.left).lower()]
     if not arity:
         raise AnalysisError('Flow._chain: the test on the number of parameters of a user callable was not found')
     for t in arity:
